@@ -243,7 +243,7 @@ Proof. unfold is_void. apply pres_bind; [apply pres_find_type|intros; apply pres
 
 (* push_type *)
 Definition push_st (t : tyh) (s : st) : st :=
-  mkSt (PositiveMap.add (next s) (mkNode t (next s) 1%N []) (nodes s)) (Pos.succ (next s)).
+  mkSt (PositiveMap.add (next s) (mkNode t (next s) 1%N []) (nodes s)) (Pos.succ (next s)) (tnames s).
 
 Lemma push_type_eq t s : push_type t s = Ok (next s, push_st t s).
 Proof. reflexivity. Qed.
@@ -279,7 +279,7 @@ Lemma pres_push t : pres (push_type t).
 Proof. apply framed_pres, framed_push. Qed.
 
 (* updates of a root that keep its representative *)
-Definition put_st (i : tyid) (n : node) (s : st) : st := mkSt (PositiveMap.add i n (nodes s)) (next s).
+Definition put_st (i : tyid) (n : node) (s : st) : st := mkSt (PositiveMap.add i n (nodes s)) (next s) (tnames s).
 
 Lemma put_node_eq i n s : put_node i n s = Ok (tt, put_st i n s).
 Proof. reflexivity. Qed.
@@ -393,6 +393,34 @@ Proof.
   - intros n. right. apply same_shape_refl.
 Qed.
 
+(* the set of type names is not part of the graph *)
+Lemma same_graph s s' : nodes s' = nodes s -> next s' = next s -> wf s -> wf s' /\ ext s s'.
+Proof.
+  intros Hn Hx W.
+  assert (L : forall i, lk s' i = lk s i) by (intros; unfold lk; rewrite Hn; reflexivity).
+  assert (R : forall i, rep s' i = rep s i) by (intros; unfold rep; rewrite L; reflexivity).
+  assert (Hd : forall i, head s' i = head s i)
+    by (intros; unfold head; rewrite L; destruct (lk s i); [rewrite L|]; reflexivity).
+  split.
+  - destruct W as [W1 W2]. split; intros i n H; rewrite L in H.
+    + rewrite Hx. eauto.
+    + destruct (W2 _ _ H) as (r & Hr & E). exists r. rewrite L. auto.
+  - repeat split.
+    + rewrite Hx. lia.
+    + intros i n H. rewrite L. eauto.
+    + intros i j r Hi Hj. rewrite !R. eauto.
+    + intros i h H _. rewrite Hd. exists h. split; [assumption|apply same_shape_refl].
+Qed.
+
+Lemma pres_add_type_name v : pres (add_type_name v).
+Proof. intros s u s' W H. injection H as _ <-. apply same_graph; auto. Qed.
+
+Lemma is_type_name_inv v s b s' : is_type_name v s = Ok (b, s') -> s' = s /\ b = existsb (N.eqb v) (tnames s).
+Proof. intros H. injection H as <- <-. auto. Qed.
+
+Lemma pres_is_type_name v : pres (is_type_name v).
+Proof. intros s b s' W H. apply is_type_name_inv in H as [-> _]. split; [assumption|apply ext_refl]. Qed.
+
 (* ------------------------------------------------------------------ set_type on a class whose head is Unknown *)
 
 Lemma set_type_spec a t s u s' :
@@ -435,7 +463,7 @@ Definition union_st (big small : tyid) (nbig nsmall : node) (s : st) : st :=
                   (fold_left (fun acc c => cinsert c acc) (ncons nsmall) (ncons nbig)))
           (PositiveMap.map
              (fun n => if Pos.eqb (nrep n) small then mkNode (nty n) big (nsize n) (ncons n) else n) (nodes s)))
-       (next s).
+       (next s) (tnames s).
 
 Definition moved (big small : tyid) (n : node) : node :=
   if Pos.eqb (nrep n) small then mkNode (nty n) big (nsize n) (ncons n) else n.
@@ -660,6 +688,8 @@ Ltac pstep R P :=
   | |- pres (is_void _) => apply pres_is_void
   | |- pres (add_constraint _ _) => apply pres_add_constraint
   | |- pres (set_cons _ _) => apply pres_set_cons
+  | |- pres (add_type_name _) => apply pres_add_type_name
+  | |- pres (is_type_name _) => apply pres_is_type_name
   | |- pres (g_unify R _ _ _ _) => apply (gp_unify R P)
   | |- pres (g_check R _ _) => apply (gp_check R P)
   | |- pres (g_arith R _ _ _ _) => apply (gp_arith R P)
@@ -1203,10 +1233,12 @@ Section TopLevel.
   Lemma pres_outer_statement s ctx : pres (outer_statement kinds G R s ctx).
   Proof.
     unfold outer_statement. destruct s; try apply pres_panic.
-    - apply pres_bind; [apply pres_var_ty|intros bt]. apply pres_bind; [apply pres_decl_params|intros [tp seen]].
+    - apply pres_bind; [apply pres_add_type_name|intros _].
+      apply pres_bind; [apply pres_var_ty|intros bt]. apply pres_bind; [apply pres_decl_params|intros [tp seen]].
       apply pres_bind; [apply pres_decl_fields|intros res]. apply pres_bind; [apply pres_push|intros t].
       apply pres_bind; [|intros; apply pres_ret]. unfold unify. apply pres_bind; [apply (gp_unify G PG)|intros; apply pres_ret].
-    - apply pres_bind; [apply pres_var_ty|intros bt]. apply pres_bind; [apply pres_decl_params|intros [tp seen]].
+    - apply pres_bind; [apply pres_add_type_name|intros _].
+      apply pres_bind; [apply pres_var_ty|intros bt]. apply pres_bind; [apply pres_decl_params|intros [tp seen]].
       apply pres_bind; [apply pres_decl_fields|intros res]. apply pres_bind; [apply pres_push|intros t].
       apply pres_bind; [|intros; apply pres_ret]. unfold unify. apply pres_bind; [apply (gp_unify G PG)|intros; apply pres_ret].
     - apply pres_bind; [apply pres_definition; assumption|intros; apply pres_ret].
@@ -1336,6 +1368,8 @@ Ltac prs1 :=
   | |- pres (is_void _) => apply pres_is_void
   | |- pres (add_constraint _ _) => apply pres_add_constraint
   | |- pres (set_cons _ _) => apply pres_set_cons
+  | |- pres (add_type_name _) => apply pres_add_type_name
+  | |- pres (is_type_name _) => apply pres_is_type_name
   | |- pres (var_ty _ _) => apply pres_var_ty
   | |- pres (var_kind _ _) => apply pres_var_kind
   | P : gpres ?G |- pres (g_unify ?G _ _ _ _) => apply (gp_unify G P)
